@@ -86,7 +86,11 @@ func genVersionsCase(r *rand.Rand, cfg Cfg, op string, big bool) Case {
 		if a == b && r.Intn(4) != 0 {
 			continue
 		}
-		ops = append(ops, fmt.Sprintf("load %d 1", a), fmt.Sprintf("load %d 2", b), fmt.Sprintf("%s 1 2", op))
+		ld := "load"
+		if (op == "difflinks" || op == "diff") && r.Intn(3) == 0 {
+			ld = "isoload" // each version on a store of its own that holds only its nodes
+		}
+		ops = append(ops, fmt.Sprintf("%s %d 1", ld, a), fmt.Sprintf("%s %d 2", ld, b), fmt.Sprintf("%s 1 2", op))
 		if op == "difflinks" && r.Intn(3) == 0 {
 			// the same diff with a link callback that stops it, or fails, after a few events
 			ops = append(ops, fmt.Sprintf("%s 1 2 %d", pick(r, []string{"difflinksstop", "difflinkserr"}), r.Intn(6)))
